@@ -57,4 +57,110 @@ def obligations(tier):
                  "lenhash, each probe costs one read)"],
         claim="on arbitrary/truncated file contents cdb_seek returns -1, 0 or 1 and stays inside packbuf, buf[32] and the key",
         expect_witnesses=lambda p: ["absent", "truncated_file_is_an_error", "io_error", "corrupt_file_can_still_answer_found"]))
+    obls.append(Obl(
+        "cdb_writer", "cdbwriter.c", repo=["cdbmss.c", "cdbmake_add.c", "cdbmake_hash.c", "cdbmake_pack.c", "substdio.c"],
+        lib=["ideal_substdio.c"], sysrename=["lseek"],
+        # measured: R >= 1 does not close (no verdict in 900 s: count[h & 255] is a symbolic index for symex even with the residue
+        # assumed, so all 256 tables get symbolic lengths).  Only the empty table is decided; see outside.
+        grid=[{"R": 0}],
+        unwind={"substdio_put": 2050, "cdbmake_throw": 6, "cdbmss_add": 4, "file_byte": 3, "ref_hash": 4},
+        unwind_default=2120, timeout=900,
+        functions=["cdbmss.c:cdbmss_start", "cdbmss.c:cdbmss_add", "cdbmss.c:cdbmss_finish", "cdbmake_add.c:cdbmake_add",
+                   "cdbmake_add.c:cdbmake_split", "cdbmake_add.c:cdbmake_throw", "cdbmake_pack.c:cdbmake_pack", "cdbmake_hash.c:cdbmake_hashadd"],
+        stubs=["substdio on the database descriptor: ideal stream writing at the descriptor's position (layer 0)", "lseek: sets that position"],
+        assumes=["R <= 2 records, keys and data 0..2 bytes, all byte values; hash residues h&255 fixed per query (B0,B1)"],
+        outside=["NOT DECIDED: the writer with one or more records (no verdict in 900 s). The clause 'the compiled database returns for every "
+                 "key exactly what the source says' is therefore only claimed for the reader over a spec-conforming file (cdb_seek_spec), "
+                 "for hash/pack agreement (cdb_hash_agree, cdb_pack_unpack) and for the records qmail-newu hands to the writer (newu_keys)"],
+        claim="cdbmss_start/finish on the empty table produce byte for byte the file the cdb format prescribes (256 empty header entries)",
+        expect_witnesses=lambda p: ["written"] + (["collision_probed_to_next_slot", "duplicate_keys_both_stored_in_order"]
+                                                   if p["R"] == 2 and p.get("B0") == p.get("B1") else [])))
+    STR = ["stralloc_opys.c", "stralloc_cats.c", "stralloc_catb.c", "stralloc_opyb.c", "stralloc_pend.c", "byte_copy.c", "byte_chr.c"]
+    obls.append(Obl(
+        "nughde_get", "nughde.c", progs=[Prog("qmail-lspawn.c")], repo=STR + ["case_lowerb.c", "prot.c"],
+        lib=["ideal_substdio.c", "arena_stralloc.c"], defines={"ARENA_CAP": 16, "ARENA_SLOTS": 4},
+        sysrename=["close", "pipe", "fork", "setgroups", "setgid", "setuid", "getuid", "chdir", "execv", "_exit"],
+        grid=[{"L": l} for l in ((1, 2, 3) if quick else (1, 2, 3, 4, 5))],
+        unwind_default=lambda p: p["L"] + 6, unwind={"substdio_put": 64}, timeout=900,
+        functions=["qmail-lspawn.c:nughde_get", "qmail-lspawn.c:report", "prot.c:prot_gid", "case_lowerb.c:case_lowerb"],
+        cuts=["cdb_seek/cdb_bread -> abstract table with the cdb.3 contract (proved by cdb_seek_spec, cdb_bread)",
+              "slurpclose/wait_pid -> qmail-getpw's output and wait status are symbolic"],
+        stubs=["open_read, close, pipe, fork (both sides), setgroups/setgid/setuid (may fail), execv, _exit", "stralloc_ready*: arena"],
+        assumes=["local part of exactly L bytes (grid), any non-NUL bytes; table of <= 2 entries + break-character record, keys start "
+                 "with '!', are lower-case, NUL only as the simple-key terminator, every non-empty wildcard prefix ends in a recorded "
+                 "break character (what qmail-newu writes: newu_keys); data <= 3 bytes; one cdb read error at any call"],
+        outside=["tables with more than 2 entries; longer local parts"],
+        claim="nughde_get returns the data of the exact entry, else of the longest wildcard prefix (first duplicate), with the rest of the "
+              "local part appended, else qmail-getpw's output; getpw runs as auto_userp after setgroups, setgid, setuid; every cdb error "
+              "exits QLX_CDB and every failure code is reported as Z",
+        expect_witnesses=lambda p: ["exact_entry", "catch_all_entry", "wildcard_covers_whole_local", "duplicate_first_wins",
+                                    "no_database_getpw", "not_listed_getpw", "getpw_child_execs", "getpw_child_gives_up",
+                                    "getpw_exit_code_passed_on", "cdb_trouble_117", "sys_trouble_118"]
+        + (["wildcard_prefix_entry", "longer_prefix_beats_catch_all"] if p["L"] >= 2 else [])))
+    obls.append(Obl(
+        "spawn_child", "spawnchild.c", progs=[Prog("qmail-lspawn.c", cut=["nughde_get"])],
+        repo=["prot.c", "scan_ulong.c", "byte_chr.c", "error_temp.c"], lib=["ideal_substdio.c"],
+        sysrename=["fork", "chdir", "setgroups", "setgid", "setuid", "getuid", "execv", "_exit", "close", "pipe"],
+        grid=[{"NL": 10, "LL": 2}, {"NL": 7, "LL": 1}, {"NL": 10, "LL": 0}] if quick else
+             [{"NL": n, "LL": l} for n in (6, 7, 10, 12, 14) for l in (1, 3)] + [{"NL": 12, "LL": 0}],
+        unwind_default=lambda p: p["NL"] + 4, unwind={"substdio_put": 64}, timeout=900,
+        functions=["qmail-lspawn.c:spawn", "qmail-lspawn.c:report", "prot.c:prot_gid", "scan_ulong.c:scan_ulong", "byte_chr.c:byte_chr",
+                   "error_temp.c:error_temp"],
+        cuts=["nughde_get -> installs NL symbolic bytes as the record (lookup itself: obligation nughde_get)"],
+        stubs=["fork (child side), chdir, fd_move/fd_copy, setgroups/setgid/setuid/getuid (process identity, may fail), execv (records, may "
+               "fail ENOENT/EAGAIN), _exit"],
+        assumes=["record: exactly NL bytes, any contents (fields wherever the NULs are); local part LL bytes, domain and sender 2 bytes; "
+                 "uid/gid compared with the decimal value only for fields of 1..9 digits"],
+        outside=["longer records"],
+        claim="qmail-local is executed only after setgroups(1,{gid}), setgid(gid), setuid(uid) all succeeded in this order, never with uid 0 "
+              "(QLX_ROOT before execv), with argv exactly {bin/qmail-local,--,user,home,local,dash,ext,domain,sender,defaultdelivery}; "
+              "short records and failing steps exit with QLX codes that report() maps to Z",
+        expect_witnesses=lambda p: ["trash_address"] if p["LL"] == 0 else
+        ["exec_qmail_local", "refused_root_113", "exec_failed_hard", "exec_failed_soft", "short_record_112", "setid_failed_112", "fd_failed_118"]
+        + (["exec_record_with_trailing_bytes"] if p["NL"] >= 8 else [])))
+    obls.append(Obl(
+        "getpw_rules", "getpw.c", progs=[Prog("qmail-getpw.c", main_as="getpw_main")],
+        repo=["case_lowers.c", "fmt_ulong.c", "byte_copy.c", "error_temp.c", "auto_break.c", "auto_usera.c"], lib=["ideal_substdio.c"],
+        sysrename=["getpwnam", "stat", "_exit"],
+        grid=[{"L": l} for l in ((1, 2, 3) if quick else (1, 2, 3, 4, 5))],
+        unwind_default=lambda p: p["L"] + 32, unwind=lambda p: {"fmt_ulong": 4, "substdio_put": 64, "userext": p["L"] + 2, "case_lowers": p["L"] + 2, "byte_copy": p["L"] // 4 + 2}, timeout=900,
+        functions=["qmail-getpw.c:main", "qmail-getpw.c:userext", "case_lowers.c:case_lowers", "fmt_ulong.c:fmt_ulong"],
+        stubs=["getpwnam: 2-entry symbolic passwd table + alias account (may be missing), one ETXTBSY at any call",
+               "stat: per home directory owner symbolic / ENOENT / EIO", "substdio on fd 1: ideal stream"],
+        assumes=["local part of exactly L bytes (grid), any non-NUL bytes; account names 1..2 bytes, any non-NUL bytes; uid, gid 0..999; "
+                 "break character and alias user as configured in the tree (auto_break.c, auto_usera.c)"],
+        outside=["longer names (the 32-character limit is not reached), more than 2 accounts, uids >= 1000 (fmt_ulong digits)"],
+        claim="qmail-getpw prints exactly user,uid,gid,home,dash,ext of the longest user-BREAK-ext match among accounts with nonzero uid "
+              "that own their existing home, else of the alias user with ext = local; trouble (ETXTBSY, unreachable home, no alias) "
+              "exits nonzero without output",
+        expect_witnesses=lambda p: ["alias_catch_all", "no_alias_116", "getpwnam_busy_118", "home_unreachable_115", "mixed_case_local"]
+        + (["plain_user", "uid0_account_skipped", "foreign_owned_home_skipped"] if p["L"] <= 2 else [])
+        + (["user_dash_ext"] if p["L"] >= 2 else []) + (["longest_user_wins"] if p["L"] >= 3 else [])))
+    obls.append(Obl(
+        "newu_keys", "newu.c", progs=[Prog("qmail-newu.c", main_as="newu_main")],
+        repo=["substdio.c", "stralloc_opys.c", "stralloc_catb.c", "stralloc_opyb.c", "stralloc_pend.c", "byte_copy.c", "byte_chr.c",
+              "case_lowerb.c"],
+        lib=["ideal_substdio.c", "ideal_getln.c", "arena_stralloc.c"], defines={"ARENA_CAP": 32, "ARENA_SLOTS": 5},
+        sysrename=["umask", "chdir", "fsync", "close", "rename", "_exit"],
+        grid=[{"LEN1": 10, "LEN2": 0, "TAIL": 2}, {"LEN1": 3, "LEN2": 0, "TAIL": 0}, {"LEN1": 11, "LEN2": 0, "TAIL": 0},
+              {"LEN1": 10, "LEN2": 10, "TAIL": 2}] if quick else
+             [{"LEN1": 10, "LEN2": 0, "TAIL": 2}, {"LEN1": 3, "LEN2": 0, "TAIL": 0}, {"LEN1": 11, "LEN2": 0, "TAIL": 0},
+              {"LEN1": 12, "LEN2": 0, "TAIL": 2}, {"LEN1": 10, "LEN2": 10, "TAIL": 2}, {"LEN1": 10, "LEN2": 11, "TAIL": 2}],
+        unwind=lambda p: {"substdio_put": 64, "newu_main~for (;;)": 2 + (1 if p["LEN2"] else 0) + p["TAIL"] + 1,
+                          "getln": max(p["LEN1"], p["LEN2"], p["TAIL"]) + 2,
+                          "byte_chr": max(p["LEN1"], p["LEN2"]) // 4 + 2, "byte_copy": max(p["LEN1"], p["LEN2"]) // 4 + 2,
+                          "case_lowerb": max(p["LEN1"], p["LEN2"]) + 1, "newu_main~for (i = 0;i < data.len;++i)": max(p["LEN1"], p["LEN2"])},
+        unwind_default=lambda p: p["LEN1"] + p["LEN2"] + p["TAIL"] + 3, timeout=900,
+        functions=["qmail-newu.c:main", "case_lowerb.c:case_lowerb", "byte_chr.c:byte_chr"],
+        cuts=["cdbmss_start/add/finish -> recorder that compares every record with a reference parse of the line (writer: cdb format spec)"],
+        stubs=["getln/substdio: ideal streams", "open_read/open_trunc/umask/chdir/fsync/close/rename", "stralloc_ready*: arena"],
+        assumes=["users/assign = one or two lines of concrete length (grid: LEN1, LEN2 bytes incl. newline, any other bytes) + TAIL free bytes"],
+        outside=["longer lines / more lines (two complete lines: thorough tier)"],
+        claim="every compiled record has key '!'+lower(local)+NUL (simple) or '!'+lower(loc) (wildcard) and the six fields NUL-separated as "
+              "data, in file order; the final '' record holds the last character of every non-empty wildcard prefix; malformed input "
+              "(missing fields, NUL, unterminated line, no dot line) exits 111 and users/cdb is not replaced",
+        expect_witnesses=lambda p: (["bad_format_111"] if not p["TAIL"] else
+                                    ["installed", "bad_format_111", "simple_line", "wildcard_line", "mixed_case_key_lowered"]
+                                    + (["catch_all_wildcard"] if p["LEN1"] == 10 else [])
+                                    + (["two_lines_compiled", "two_break_characters"] if p["LEN2"] else []))))
     return obls
